@@ -611,7 +611,7 @@ func (ex *Explorer) addViolation(v *Violation) {
 	}
 	lim := ex.opts.VioPerSig
 	if lim <= 0 {
-		lim = 5 // several candidates per signature: one that reproduces natively is enough
+		lim = 3 // several candidates per signature: one that reproduces natively is enough
 	}
 	if len(ex.violations[sig]) < lim {
 		ex.violations[sig] = append(ex.violations[sig], v)
